@@ -342,6 +342,10 @@ class Form(str):
             return False
         return str.__eq__(self, other)
 
+    def __ne__(self, other):
+        result = self.__eq__(other)
+        return result if result is NotImplemented else not result
+
     def __hash__(self):
         return str.__hash__(self)
 
